@@ -99,6 +99,20 @@ func VerifRingLocationsAnyScores() {
 	w.checkUF(sc, ra, rb, d)
 }
 
+// VerifRingRefreshHealthOnlyAnyScores: the health view changes between two
+// refreshes while the membership stays the same (uninterpreted scores: every
+// digest at once); the refreshed ring must follow the new health view and agree
+// with a ring started afresh.
+func VerifRingRefreshHealthOnlyAnyScores() {
+	verif.Option("hrw_score_uninterpreted", 1)
+	nhosts := verif.Bound("hosts_health_uf", 3, 4)
+	w := verifGSetup(nhosts, false)
+	d, err := core.NewSHA256DigestFromHex(verifGUFDigest)
+	verif.Assume(err == nil)
+	sc := verifGNewScores(d.ShardID())
+	verifGHealthOnly(w, d, func(ra, rb Ring) { w.checkUF(sc, ra, rb, d) })
+}
+
 // VerifRingRefreshAnyScores: membership and health change, Refresh, and the rule
 // holds for the new membership (uninterpreted scores).
 func VerifRingRefreshAnyScores() {
